@@ -540,6 +540,10 @@ def enumerate_sharded(tier, shard, nshards):
     for a, b in (('cdisc', 'lose'), ('sdisc', 'cdisc'), ('sdisc', 'lose'),
                  ('lose', 'sdisc')):
         cfgs.append({'sched': True, 'causes': [a, 'refuse', b]})
+    # the dying transport asks for one more namespace while the disconnect
+    # handlers of its loss are running
+    cfgs.append({'sched': True, 'causes': ['lose', 'yconnect']})
+    cfgs.append({'sched': True, 'causes': ['lose', 'yconnect', 'sdisc']})
     for i, cfg in enumerate(cfgs):
         if i % nshards != shard:
             continue
@@ -562,7 +566,7 @@ def enumerate_sharded(tier, shard, nshards):
 
 def _sched_execute(case):
     import asyncio
-    w = World(aio=True, namespaces=['/', '/x'])
+    w = World(aio=True, namespaces=['/', '/x', '/y'])
     sio = w.sio
     loop = w.h.loop
     s = _Sched(case['choices'])
@@ -579,7 +583,7 @@ def _sched_execute(case):
             log.append((ns, sid, reason))
             await gate('handler:' + ns)
         return h
-    for ns in ('/', '/x'):
+    for ns in ('/', '/x', '/y'):
         sio.on('connect', lambda sid, environ, auth=None:
                False if auth == {'refuse': 1} else None, namespace=ns)
         sio.on('disconnect', mk_disc(ns), namespace=ns)
@@ -610,6 +614,8 @@ def _sched_execute(case):
             return sock.receive(ep.Packet(ep.MESSAGE, '1/x,'))
         if name == 'refuse':
             return sock_r.receive(ep.Packet(ep.MESSAGE, '0{"refuse":1}'))
+        if name == 'yconnect':
+            return sock.receive(ep.Packet(ep.MESSAGE, '0/y,'))
         return sock.close(wait=False, abort=True,
                           reason=w.h.reason.TRANSPORT_ERROR)
     tasks = []
@@ -676,6 +682,17 @@ def _sched_judge(case, s, o):
             raise Violation('other-namespace-affected', what)
         if not m.is_connected(by['sid'], '/'):
             raise Violation('bystander-affected', what)
+        if 'yconnect' in names:
+            ysid = m.sid_from_eio_sid(w.t[victim['t']], '/y')
+            y_inv = [e for e in o['log'] if e[0] == '/y']
+            if ysid is not None or any(
+                    v for v in m.rooms.get('/y', {}).values()):
+                raise Violation('membership-retained',
+                                'the lost transport stays connected to /y '
+                                'as %r; /y disconnect handler ran %d times '
+                                '[%s]' % (ysid, len(y_inv), what))
+            if len(y_inv) > 1:
+                raise Violation('disconnect-handler-twice', '/y [%s]' % what)
         if m.sid_from_eio_sid(w.t[o['tr']], '/') is not None:
             raise Violation('membership-retained', 'refused transport '
                             '[%s]' % what)
